@@ -6,11 +6,6 @@ Additions to the base semantics (nothing else changes):
    indeterminate bytes, and the destination bytes then are indeterminate too (`undefined_bytes(region)`):
    an implementation may leave anything there.
  * every `alloc` gets fresh addresses (frames are never reused), so "written" marks cannot leak between frames.
- * object bounds: an access whose address has the shape  <constant> + <symbolic offset>  is inside the premise
-   only if it stays inside the object that contains <constant> (the base it was computed from).  The base
-   semantics accepts an access into ANY live region; a wild index that happens to land in another object (in
-   particular in one of this model's allocas, whose addresses no implementation shares) says nothing about
-   an implementation.  This only narrows the premise.
  * an address that is symbolic is concretised through the active engine when it has at most
    `engine.choose_limit` feasible values (one path per value), so that array reasoning is only left for
    genuinely unbounded pointers.
@@ -52,41 +47,22 @@ class IrSemU(IrSem):
         self.W = z3.Store(self.W, a, z3.BoolVal(True))
         self.P = z3.Store(self.P, a, undef)
 
-    def _object_bounds(self, addr, nbytes):
-        a = z3.simplify(addr)
-        if z3.is_bv_value(a) or not z3.is_app_of(a, z3.Z3_OP_BADD):
-            return
-        consts = [c for c in a.children() if z3.is_bv_value(c)]
-        if len(consts) != 1:
-            return
-        base = consts[0].as_long()
-        for r in self.regions:
-            if r.base <= base < r.base + r.size:
-                if r.size < nbytes:
-                    self.ub.append(z3.BoolVal(True))
-                else:
-                    self.ub.append(z3.Not(z3.And(z3.UGE(a, z3.BitVecVal(r.base, self.pb)),
-                                                 z3.ULE(a, z3.BitVecVal(r.base + r.size - nbytes, self.pb)))))
-                return
-
-    def load(self, addr, nbytes):
-        self._object_bounds(addr, nbytes)
+    def load(self, addr, nbytes, home=None):
         addr = concretise(addr)
         for k in range(nbytes):
             u = self.undefined(addr + k)
             if not z3.is_false(u):
                 self.ub.append(u)
-        r = super().load(addr, nbytes)
+        r = super().load(addr, nbytes, home)
         if z3.is_bv_value(addr):
             w = self.whole.get(addr.as_long())
             if w is not None and w[0] == nbytes:
                 return w[1]          # the very term that was stored (byte-wise reassembly denotes the same value)
         return r
 
-    def store(self, addr, val, nbytes):
-        self._object_bounds(addr, nbytes)
+    def store(self, addr, val, nbytes, home=None):
         addr = concretise(addr)
-        super().store(addr, val, nbytes)
+        super().store(addr, val, nbytes, home)
         self._forget(addr, nbytes)
         if z3.is_bv_value(addr):
             self.whole[addr.as_long()] = (nbytes, val)
@@ -124,8 +100,13 @@ class IrSemU(IrSem):
             d = concretise(self.value(ins.dst, env))
             s = concretise(self.value(ins.src, env))
             us = [self.undefined(s + j) for j in range(ins.amount)]
-            data = IrSem.load(self, s, ins.amount)
-            IrSem.store(self, d, data, ins.amount)
+            try:
+                self._cur_home = self.home_of(ins.src, env)          # provenance of the base semantics
+                data = IrSem.load(self, s, ins.amount)
+                self._cur_home = self.home_of(ins.dst, env)
+                IrSem.store(self, d, data, ins.amount)
+            finally:
+                self._cur_home = None
             self._forget(d, ins.amount)
             for j in range(ins.amount):
                 self._mark(z3.simplify(d + j), us[j])
